@@ -32,6 +32,9 @@ type cfg08 struct {
 	// pollsStalled: subscriber A (POLL mode) keeps sending this many poll
 	// triggers while its sends are stalled
 	pollsStalled int
+	// aPaths: subscriber A's paths (default [a], the same as B's): [a/b] puts the
+	// stalled subscriber strictly BELOW the healthy one's path
+	aPaths []string
 }
 
 func configs08(tier string) []xplore.Config {
@@ -80,6 +83,10 @@ func configs08(tier string) []xplore.Config {
 	// the cache again, and whatever that adds to the backlog coalesces with
 	// what is already pending - the markers included
 	out = append(out, xplore.Config{Name: "A mode=POLL stall=permanent polling 3x while stalled | B normal | W=upd a/b;upd a/b;upd a/b", Bound: bound, Data: cfg08{stall: "permanent", script: scripts[1], amode: pb.SubscriptionList_POLL, pollsStalled: 3}})
+	// the stalled subscriber's path lies strictly below the healthy one's
+	for _, uo := range []bool{false, true} {
+		out = append(out, xplore.Config{Name: fmt.Sprintf("A on t1:[a/b] stall=permanent updates_only=%v | B on t1:[a] normal | W=upd a/b;upd a/b;upd a/b", uo), Bound: bound, Data: cfg08{stall: "permanent", updatesOnly: uo, script: scripts[1], aPaths: []string{"a/b"}}})
+	}
 	// the send time-out ends a stalled subscription in every mode
 	for _, md := range []pb.SubscriptionList_Mode{pb.SubscriptionList_ONCE, pb.SubscriptionList_POLL} {
 		out = append(out, xplore.Config{Name: fmt.Sprintf("A mode=%v stall=permanent | B normal | W=upd a/b;upd a/b;upd a/b", md), Bound: bound, Data: cfg08{stall: "permanent", script: scripts[1], amode: md}})
@@ -246,7 +253,11 @@ func run08(cfg xplore.Config, ch vrt.Chooser, trace bool) (xplore.Outcome, *vrt.
 		if stall == "never" {
 			stall = ""
 		}
-		a := newStream(subSpec{target: "t1", paths: []string{"a"}, mode: d.amode, updatesOnly: d.updatesOnly, stall: stall})
+		aPaths := d.aPaths
+		if len(aPaths) == 0 {
+			aPaths = []string{"a"}
+		}
+		a := newStream(subSpec{target: "t1", paths: aPaths, mode: d.amode, updatesOnly: d.updatesOnly, stall: stall})
 		b := newStream(subSpec{target: "t1", paths: []string{"a"}, mode: pb.SubscriptionList_STREAM})
 		w.streams = []*fstream{a, b}
 		for i, st := range w.streams {
@@ -363,6 +374,16 @@ func run08(cfg xplore.Config, ch vrt.Chooser, trace bool) (xplore.Outcome, *vrt.
 			}
 			if b.returned {
 				viol(&out, "other-subscriber-ended", "B ended with %v after A timed out", b.status)
+			} else if len(d.script) < 100 {
+				// the stalled subscription is gone (its registration removed): the
+				// healthy one keeps receiving - one more update, sequentially
+				nb := len(b.log)
+				w.apply("t1", wop{"upd", "a/b"})
+				vrt.Idle()
+				want := fmt.Sprintf("a/b=%d", w.val)
+				if got := renderLog(b.log[nb:]); !strings.Contains(got, want) {
+					viol(&out, "other-subscriber-cut-off", "after A's subscription was ended by the send time-out, an update %s was accepted but B (subscribed to t1:[a], still open) received %q", want, got)
+				}
 			}
 			// (2) backlog bound, measured by releasing the blocked sender
 			before := len(a.log)
